@@ -84,7 +84,9 @@ COINCIDENT_CLASSES = ["touch", "touch-left", "A-in-B-flushL", "A-in-B-flushR", "
                       "identical"]
 REL_ANGLES = [("0", 0.0), ("1", 1.0), ("20", 20.0), ("-20", -20.0), ("60", 60.0), ("-60", -60.0)]
 DEPTHS = [("-0.1", -0.1), ("0", 0.0), ("1e-12", 1e-12), ("0.1", 0.1)]
-OBSTACLES = ["plane", "corner", "circle-node", "circle-gauss", "combined"]
+# corner-offset: a corner whose two faces sit at DIFFERENT locations (xLoc != yLoc); with xLoc == yLoc a mix-up of the two
+# arguments is invisible (a seeded change of that kind went undetected)
+OBSTACLES = ["plane", "corner", "corner-offset", "circle-node", "circle-gauss", "combined"]
 FIELDS = ["rigid", "rot", "stretch", "bulge"]
 STIFF = [("1", 1.0), ("1e3", 1e3)]
 EDGESETS = ["face", "all"]
@@ -857,6 +859,12 @@ def _run_levelset(g, tier, seed, rec):
         params = {"xLoc": 0.0, "yLoc": 0.0}
         lib_ls = lambda x: Levelset.corner(x, 0.0, 0.0)                                     # noqa
         ref_ls = lambda x: ref.corner(x, 0.0, 0.0)                                          # noqa
+    elif ob == "corner-offset":
+        direction = (-1.0, -1.0)
+        face = onp.vstack([onp.asarray(mesh.sideSets["left"]), onp.asarray(mesh.sideSets["bottom"])])
+        params = {"xLoc": -0.25, "yLoc": 0.0}
+        lib_ls = lambda x: Levelset.corner(x, -0.25, 0.0)                                   # noqa
+        ref_ls = lambda x: ref.corner(x, -0.25, 0.0)                                        # noqa
     elif ob == "combined":
         # Levelset.combined: plane y <= 1 and corner x >= 0, y >= 0 at once (the unit square fits exactly)
         direction = (0.0, 1.0)
